@@ -62,7 +62,9 @@ class ManifestPathEntry:
     """Base class for entries using a path"""
 
     __slots__ = ['path']
-    disallowed_path_re = re.compile(r'[\x00-\x1F\x7F-\x9F\s\\]', re.U)
+    # NB: lone surrogates can not be encoded in UTF-8
+    disallowed_path_re = re.compile(
+        r'[\x00-\x1F\x7F-\x9F\s\\\uD800-\uDFFF]', re.U)
     escape_seq_re = re.compile(
         r'\\(x[0-9a-fA-F]{2}|u[0-9a-fA-F]{4}|U[0-9a-fA-F]{8})?')
 
